@@ -109,7 +109,7 @@ impl Check for C09 {
     fn meta(&self) -> Meta {
         Meta {
             level: "exploration",
-            rule: "histories of 0-4 accepted requests, each ending in one of {normal finish, resolver dropped before header resolution, FIN before HEADERS, client RESET before / after HEADERS, malformed headers, oversized headers, split into halves dropped at different times, held by the application until released, never resolving until released, parked in a collection the application clears in one step when released}; one run in sixteen is a burst of 17-24 requests all ended in that one step combined with the client's GOAWAY written at a drawn script position and, in one run in three, a server-initiated shutdown(n), n in 0..3, at a drawn moment; in one run in three the requests are written in a drawn order and surface in arrival order (stream 4 may be accepted before stream 0); all interleavings and chunkings drawn; judged at two exact quiescence points (before and after the held requests are released); non-trivial = GOAWAY delivered and >= 1 request handed out; distinct = distinct schedule signatures",
+            rule: "histories of 0-4 accepted requests, each ending in one of {normal finish, resolver dropped before header resolution, FIN before HEADERS, client RESET before / after HEADERS, malformed headers, oversized headers, split into halves dropped at different times, held by the application until released, never resolving until released, parked in a collection the application clears in one step when released}; one run in sixteen is a burst of 17-24 requests all ended in that one step combined with the client's GOAWAY written at a drawn script position (in one run in three behind MAX_PUSH_ID / CANCEL_PUSH frames a server ignores: one frame, or a burst of 16-40 in the same write as the GOAWAY) and, in one run in three, a server-initiated shutdown(n), n in 0..3, at a drawn moment; in one run in three the requests are written in a drawn order and surface in arrival order (stream 4 may be accepted before stream 0); all interleavings and chunkings drawn; judged at two exact quiescence points (before and after the held requests are released); non-trivial = GOAWAY delivered and >= 1 request handed out; distinct = distinct schedule signatures",
             real: &["h3 server Connection (accept / request completion accounting)", "RequestResolver, server RequestStream and its halves, RequestEnd notification channel"],
             stub: &["QUIC transport (SimQuic)", "executor (simexec)", "peer (script)", "application (drawn handling of each request; handle lifetimes tracked by drop guards)"],
             assumptions: &["a request has ended when the application holds no handle of it any more (resolver, stream or either half), whether by drop or by a failing call that consumed it"],
